@@ -4,7 +4,7 @@ CONSTANTS
   Radii <- CmcRadii
   ProbeSets <- CmcProbes
   Forms = {"scalar", "list", "array", "column", "int"}
-  Endpoints = {1, 2, 3, 4, 5, 6}
+  Endpoints = {1, 2, 3, 4, 5, 6, 7, 8}
   AboveEndpoints = {5, 6}
   Zeniths = {0, 1, 2, 3, 4, 5, 6, 7, 8, 9}
   HorizonIndex = 3
